@@ -176,6 +176,12 @@ pub fn plan(prop: &str, tier: &str, polars: bool, scale: f64) -> Plan {
                     name: "directed/rolling-default-paths",
                     programs: Arc::new(directed::rolling(if thorough { 9 } else { 6 })),
                 },
+                Source::Directed {
+                    name: "directed/typed-consumption-methods",
+                    programs: Arc::new(
+                        crate::typed::directed(if thorough { 7 } else { 5 }).into_iter().map(Program::Typed).collect(),
+                    ),
+                },
                 Source::Seeded {
                     name: "seeded/sinks",
                     stream_id: 2,
